@@ -14,7 +14,7 @@ open Sens
 def vecOfJson (j : Json) : Except String (List Rat) := if j.isNull then pure [] else listOfJson ratOfJson j
 def matOfJson (j : Json) : Except String (List (List Rat)) := if j.isNull then pure [] else listOfJson (listOfJson ratOfJson) j
 def natFld (j : Json) (k : String) : Except String Nat := if (fld j k).isNull then pure 0 else (fld j k).getNat?
-def natsOfJson (j : Json) : Except String (List Nat) := if j.isNull then pure [] else listOfJson Json.getNat? j
+def natsOrNilOfJson (j : Json) : Except String (List Nat) := if j.isNull then pure [] else listOfJson Json.getNat? j
 
 def outVec (n : Nat) (v : Vec Rat) : Json := Json.mkObj [("out", ratsToJson (toList n v))]
 def outMat (nr nc : Nat) (M : Mat Rat) : Json := Json.mkObj [("out", ratMatToJson (toMat nr nc M))]
@@ -62,8 +62,8 @@ def opLayout (j : Json) : Except String Json := do
     -- FF: one vector (row of the integrated forward-forward block) per observation
     let ffs ← listOfJson vecOfJson (fld j "ff")
     let FF : Nat → Mat Rat := fun i => vecToMatFF nP (ofList (ffs.getD i []))
-    let stateIdx ← natsOfJson (fld j "stateIdx")
-    let paramIdx ← natsOfJson (fld j "paramIdx")
+    let stateIdx ← natsOrNilOfJson (fld j "stateIdx")
+    let paramIdx ← natsOrNilOfJson (fld j "paramIdx")
     let q := paramIdx.length
     let variant := (fld j "variant").getStr?.toOption.getD "coded"
     if variant == "repaired" then
